@@ -196,6 +196,12 @@ Proj(seq, F(_)) == [k \in Idx(seq) |-> F(seq[k])]
 ACnBed(r, seg) ==                      \* segments["cn"]  or  absolute_pure(...).round()
     IF r.hascn THEN RCn(seg)
     ELSE RoundRQ(ExRefCopiesPure(RPfx(seg), RBase(seg), r.ploidy, r.hapx), RQn(seg), RQd(seg))
+(* what the repair proposed with finding BedParCopies computes (absolute_dataframe, as export_vcf does); *)
+(* when the repair is made, ACnBed becomes this operator and the finding is closed                       *)
+ACnBedRepaired(r, seg) ==
+    IF r.hascn THEN RCn(seg)
+    ELSE RoundRQ(ExRefCopiesA(FirstPfx(r.tab), RName(seg), RS(seg), RE(seg), r.ploidy, r.hapx, r.genome),
+                 RQn(seg), RQd(seg))
 AExpect(r, seg) == ExExpectCopiesA(FirstPfx(r.tab), RName(seg), RS(seg), RE(seg), r.ploidy, r.female, r.genome)
 ARef(r, seg) == ExRefCopiesA(FirstPfx(r.tab), RName(seg), RS(seg), RE(seg), r.ploidy, r.hapx, r.genome)
 ABedKeep(r, seg) == IF r.show = "ploidy" THEN ACnBed(r, seg) # r.ploidy
